@@ -22,7 +22,7 @@ Definition C14_full (observe : c14case -> list Z) : Prop :=
 
 (* (0) master statement about the functions the harness evaluates: on every input outside the
    open finding classes (5 blank search text, 6 parser stack, 7 nested non-nullable references,
-   8 reference filter on an aggregate selection),
+   8 WHERE filter on the selected json value in an aggregate selection),
    what the model says the implementation observes satisfies the property's oracle — no panic
    code, every probe answered, every valid request Ok, parentheses paired and SELECTs linear in
    the request.  All case kinds, sequences of any length. *)
@@ -158,7 +158,7 @@ Proof. exact clauses_grammatical. Qed.
 Print Assumptions C14_clauses_grammatical_holds_partial.
 
 Theorem C14_valid_clause_query_executes_outside_known_partial : forall q,
-  aquery_valid q = true -> search_blank q = false -> ref_filter_on_aggregate q = false -> aquery_outcome q = OOk.
+  aquery_valid q = true -> search_blank q = false -> value_filter_on_aggregate q = false -> aquery_outcome q = OOk.
 Proof. exact valid_aquery_executes. Qed.
 Print Assumptions C14_valid_clause_query_executes_outside_known_partial.
 
@@ -169,7 +169,8 @@ Print Assumptions C14_delete_total_holds.
 Theorem C14_clause_witnesses :
   aquery_valid w_paged_agg = true /\ known_C14 (CAgg w_paged_agg) = [] /\ run_C14 (CAgg w_paged_agg) = [0; 1] /\
   emit_clauses w_paged_agg = [CCond; CGroup; CHaving; CCond; COrder] /\
-  aquery_valid w_ref_filter_agg = true /\ aquery_outcome w_ref_filter_agg = OErr /\ known_C14 (CAgg w_ref_filter_agg) = [8].
+  aquery_valid w_ref_filter_agg = true /\ aquery_outcome w_ref_filter_agg = OErr /\ known_C14 (CAgg w_ref_filter_agg) = [8] /\
+  aquery_valid w_alias_filter_agg = true /\ aquery_outcome w_alias_filter_agg = OErr /\ known_C14 (CAgg w_alias_filter_agg) = [8].
 Proof. exact clause_witnesses_w. Qed.
 Print Assumptions C14_clause_witnesses.
 
